@@ -179,3 +179,32 @@ func vh_prevote_step() {
 	vAssert(resp.Term == vIte64(req.Term > pre.term, req.Term, pre.term) || (!resp.Granted && resp.Term == pre.term), "C14.prevote.resp-term")
 	vReach("prevote.end")
 }
+
+// vh_process_rpc: the RPC dispatcher hands vote/pre-vote requests to their
+// handlers whatever this server's own pre-vote setting is (a pre-vote-disabled
+// server still answers pre-vote requests; only transports that do not know the
+// RPC answer "unexpected command", which the asker counts as a grant).
+func vh_process_rpc() {
+	r, env := vNewRaft("a", vRaftOpts{n: 1})
+	vAssume(vInvBasic(r, env))
+	r.preVoteDisabled = vChoose("preVoteDisabled", 0, 1) == 1
+	hdr := RPCHeader{ProtocolVersion: ProtocolVersionMax, ID: vBlob("id"), Addr: vBlob("addr")}
+	var cmd interface{}
+	kind := vChoose("kind", 0, 1)
+	if kind == 0 {
+		cmd = &RequestPreVoteRequest{RPCHeader: hdr, Term: vU64("term"), LastLogIndex: vU64("lli"), LastLogTerm: vU64("llt")}
+	} else {
+		cmd = &RequestVoteRequest{RPCHeader: hdr, Term: vU64("term"), LastLogIndex: vU64("lli"), LastLogTerm: vU64("llt")}
+	}
+	rpc, ch := vMakeRPC(cmd)
+	vCatch(func() { r.processRPC(rpc) })
+	if len(ch) == 1 {
+		out := <-ch
+		vAssert(out.Error == nil, "C14.dispatch.vote-requests-reach-their-handler")
+		if kind == 0 {
+			_, ok := out.Response.(*RequestPreVoteResponse)
+			vAssert(ok, "C14.dispatch.prevote-answered-by-prevote-handler")
+		}
+	}
+	vReach("processrpc.end")
+}
